@@ -18,7 +18,9 @@ if not os.environ.get('UAVERIF_VARIANTS'):
     # the behaviour-preserving refactorings: each must stay silent for the property it was written for
     for pf in sorted(glob.glob(os.path.join(root, 'benign', '*', 'refactor*.diff'))):
         pid = os.path.basename(os.path.dirname(pf))
-        variants.append({'id': 'benign-' + pid + '-' + os.path.basename(pf)[:-5], 'kind': 'benign', 'props': [pid], 'patch': pf, 'edits': []})
+        # UAVERIF_BENIGN_ALL=1: every check must stay silent on it, not only the one of its own property
+        props = ['all'] if os.environ.get('UAVERIF_BENIGN_ALL') else [pid]
+        variants.append({'id': 'benign-' + pid + '-' + os.path.basename(pf)[:-5], 'kind': 'benign', 'props': props, 'own': pid, 'patch': pf, 'edits': []})
 
 def run(v):
     d = tempfile.mkdtemp(prefix='uaverif-st-')
@@ -43,6 +45,8 @@ def run(v):
         if b.returncode != 0:
             return v, 'NOBUILD', b.stderr[-300:]
         os.makedirs(vd, exist_ok=True)
+        # recorded findings stay recorded findings in the variant (a moved site is re-reported: keyed by construct)
+        shutil.copy(os.path.join(root, 'known_findings.json'), os.path.join(vd, 'known_findings.json'))
         r = subprocess.run([os.path.join(root, 'bin/uaverif'), '-repo', d, '-verif', vd, '-prop', ','.join(v['props'])], capture_output=True, text=True, env=env)
         out = r.stdout
         viol = [l for l in out.splitlines() if l.startswith('  C') ]
@@ -65,12 +69,12 @@ def run(v):
         shutil.rmtree(d, ignore_errors=True)
         shutil.rmtree(vd, ignore_errors=True)
 
-sel = [v for v in variants if prop == 'all' or prop in v['props']]
+sel = [v for v in variants if prop == 'all' or prop in v['props'] or prop == v.get('own')]
 if not sel:
     print('selftest: no stored variants for', prop)
     sys.exit(0)
 bad = 0
-with concurrent.futures.ThreadPoolExecutor(max_workers=6) as ex:
+with concurrent.futures.ThreadPoolExecutor(max_workers=int(os.environ.get('UAVERIF_JOBS', '6'))) as ex:
     for v, verdict, info in ex.map(run, sel):
         # STALE / NOBUILD say the stored edit no longer fits the tree under analysis (it was changed since the
         # variant was recorded): reported, but not a verdict about the checker.
